@@ -86,6 +86,16 @@ CHECKS = {
              "default_format sequences on held objects and sort functions are sampled. Formatting must never raise or alter its argument.",
         note="Babel-localised output is outside the statement. One known finding: '%' / per-mille followed by a superscript in '~P'.",
         design="5/C09"),
+    "C10": dict(
+        technique="complete comparison of the bundled definition files with an independent reader; Hypothesis model-first generated definition files rendered in permuted/variant layouts and loaded through five paths x three numeric types (model oracle + differential between paths); fault injection from a catalogue of ill-formed statements",
+        text="(a) Every unit, spelling, symbol, prefix, derived dimension, group, system, context and default that R reads from default_en.txt/constants_en.txt is "
+             "compared with the loaded registry in float, Decimal and Fraction configurations. (b) Random registry models (DAG of units with rational factors, "
+             "prefixes with '_' placeholders, aliases, symbols, offset unit, groups with 'using' chains, a system rule of either form, derived dimension) are "
+             "rendered with permuted unit/prefix lines, spacing, comments and literal spellings and loaded from a list of lines, a file, define() calls, a file with "
+             "@import and a cold+warm disk cache; every answer must equal the model and agree across paths. (c) One ill-formed statement out of 25 kinds is "
+             "inserted at a random place: loading or the first use of the name must raise.",
+        note="Generated contexts are exercised by C11/C12. Units added via define() are not asked for compatible-unit listings (known finding of C13).",
+        design="5/C10"),
     "C20": dict(
         technique="complete enumeration of an independently curated table of ~260 standard values x spellings x {Fraction, float} registries (differential oracle: the table)",
         text="Each entry of data/standards.txt (SI and binary prefixes, SI units, defining constants, yard/pound multiples, US/imperial capacity, avoirdupois/"
